@@ -48,7 +48,7 @@ def run(tier, seed):
     ck.proof = lib.proof_step('props/C01.v', matchcheck.MATCH_CONE)
     ck.broken += ck.proof['broken']
     if not ck.proof['driver_ok']:
-        return ck.finish(rule='driver unavailable')
+        ck.notes['driver'] = 'unavailable: model-side runs skipped, searching with the implementation-side oracles only'
     n = 120 if tier == 'quick' else 2500
     scs = campaign.build(ck.rnd, 'core', n, 8, depth=2, all_match=True, directed=3)
     scs += campaign.build(ck.rnd, 'core', n // 4, 4, depth=3, all_match=True)
